@@ -1,5 +1,5 @@
 CONSTANTS
-  Ns = {8}
+  Ns = {8, 16}
   MaxS = 3
   MaxSel = 3
   VMax = 3
